@@ -81,8 +81,16 @@ def gen_T05():
     pieces = [a1, a2, b2] if right else [a2, b2, b1]          # left-to-right pieces of the hostmask
     need(ast.unparse(body[3]) == 'return (minisix.intern(%s), minisix.intern(%s), minisix.intern(%s))' % tuple(pieces),
          'splitHostmask: the result is not the three pieces in order: ' + ast.unparse(body[3]))
+    # ---- drivers.parseMsg: strip(), then IrcMsg(s) or None ----
+    dr = tree('src/drivers/__init__.py')
+    pm = find_def(dr, 'parseMsg')
+    body = [b for b in pm.body if not (isinstance(b, ast.Expr) and isinstance(b.value, ast.Constant))]
+    need([ast.unparse(b) for b in body] == ['s = s.strip()', 'if s:\n    msg = ircmsgs.IrcMsg(s)\n    return msg\nelse:\n    return None'],
+         'drivers.parseMsg changed: %r' % [ast.unparse(b) for b in body])
     import re as _re
     ws = [i for i in range(0x110000) if 0xD800 > i or i > 0xDFFF if _re.match(r'\s', chr(i))]
+    # the same set serves str.strip() in parseMsg: check that the running Python agrees
+    need(all((chr(i).strip() == '') == (i in set(ws)) for i in list(range(0x3100)) + [0xFEFF, 0x1D7CE]), 're \\s and str.strip() whitespace differ')
     out = 'Require Import Base.Wire.\n'
     out += 'Definition WHITESPACE : list N := %s.\n' % clist('%d' % i for i in ws)
     out += 'Definition SPLIT1 : bool * N := (%s, %d).\n' % ('true' if r1 else 'false', ord(c1))
